@@ -732,3 +732,43 @@ func (n *zzxNode) genesisTipID(height uint32) []byte {
 	}
 	return bh.ID
 }
+
+// C13 for the FIRST step of a node's life: processing the genesis block (Executer.Init on an empty database).
+// The application may refuse any of its calls (symbolic failure point, including Commit): either the whole
+// step is in the database through exactly one batch write — genesis block, indexes, consensus store, revert
+// diff, finalized height — or nothing is, so that a restart finds an empty database and runs the step again
+// on a clean store. (seed C13-8 committed the consensus store of the genesis step directly to the database.)
+//
+//zz:opt loop=80 lockdiscipline=off require=applied,refused
+//zz:stub time.Now zzxStubNow
+func zzH_C13_genesis_atomic(t *zzT) {
+	zzxSkipGenesis = true
+	n := zzxNewNode(t, 2, 0, 2)
+	zzxSkipGenesis = false
+	fi := int(t.U8("abi.failAt"))
+	t.Assume(fi < 8)
+	// genesis calls: InitStateMachine (1), InitGenesisState (as "InitGenesisState", not in the step table), Commit (7)
+	n.abi.failIdx = fi
+	if t.Bool("abi.failGenesisState") {
+		n.abi.failAt = "InitGenesisState"
+	}
+	err := n.ex.processGenesisBlock(&ProcessContext{ctx: context.Background(), block: n.genesis})
+	writes, direct, _ := db.ZZMonitor(n.database)
+	dump := db.ZZDump(n.database)
+	if err != nil {
+		t.Assert(len(dump) == 0, "a refused genesis step leaves the database empty")
+		if writes >= 0 {
+			t.Assert(writes == 0 && direct == 0, "a refused genesis step performs no durable write")
+		}
+		t.Reach("refused")
+		return
+	}
+	if writes >= 0 {
+		t.Assert(writes == 1 && direct == 0, "genesis: exactly one atomic batch write and no direct writes")
+	}
+	exist, gerr := n.chain.GenesisBlockExist(n.genesis)
+	t.Assert(gerr == nil && exist, "after the step the genesis block is stored")
+	_, _, _, herr := n.ex.liskBFT.API().GetBFTHeights(n.store())
+	t.Assert(herr == nil, "after the step the consensus store is initialised")
+	t.Reach("applied")
+}
